@@ -489,6 +489,9 @@ def run(ck, build, only_c04=False):
             "a non-OR accumulation is refuted by an explicit low-weight counter-example on the exact result term")
     ck.not_decided += ["the 2^-64 forgery bound", "sensitivity of the computed tag to every input bit (a property of the cipher; the mode structure is C02's)"]
     ck.assume("distinct pointer parameters do not overlap (except c == m); size_t arithmetic on lengths does not wrap")
+    from . import modecommon
+    if modecommon.nostate_rule(ck, build, "R-C03-NOSTATE", ("aead", "siv"), "the six decrypt entry points (and the encrypt functions sharing their helpers)"):
+        return
     mod = Module(build.facts("H", "N0"))
     ck.config("H", "N0")
     label = "H/N0"
